@@ -48,7 +48,7 @@ PROVED_FAMILIES = ['plurality', 'ha_d_hondt', 'ha_sainte_lague', 'ha_imperiali',
                    'positional_fixed_top3', 'approval_av', 'approval_sav',
                    'condorcet_kemeny_young', 'condorcet_winner', 'smith_set', 'schwartz_set',
                    'stv_gregory_hare', 'stv_gregory_droop', 'stv_dist_gregory_droop',
-                   'rel_threshold_5pc', 'rel_threshold_third', 'abs_threshold_2', 'openlist_jump_5pc', 'openlist_quota_precedence',
+                   'rel_threshold_5pc', 'rel_threshold_5pc_decimal', 'rel_threshold_5pc_float', 'rel_threshold_third', 'abs_threshold_2', 'openlist_jump_5pc', 'openlist_quota_precedence',
                    'openlist_tiebreaker_plurality', 'threshold_alternative', 'aux_input_order',
                    'lr_imperiali_subtract', 'lr_hagenbach_bischoff_subtract', 'qd_imperiali_subtract',
                    'baldwin', 'approval_pav', 'approval_spav', 'score_mean', 'score_sum0', 'score_median', 'majority_judgment_plus', 'star']
@@ -213,6 +213,7 @@ def _bookkeeping():
     except Exception:
         pass
 _bookkeeping()
+NAME_MODES = ['str', 'int0', 'empty0']
 REQUIRED_COUNTERS = ['sel', 'dist', 'seatless', 'tie_in_result', 'modelled', 'refusal', 'few_votes', 'all_equal', 'truncation_empties', 'rotation', 'score_tied']
 RULE = ('every evaluator family built from the public selector/distributor classes of votelib.evaluate.* (shared table harness/families.py + the local '
         'list in this module: open list, list tie-breaker, auxiliary selectors, AlternativeThresholds, the subtract over-award policy, score voting with '
@@ -236,7 +237,7 @@ NOT_VERIFIED = ['families listed under unproved: the entry names the statement t
 
 def generate(rng, tier):
     F = list(fams().values())
-    per = 10 if tier == 'quick' else 600
+    per = 30 if tier == 'quick' else 600
     for f in F:
         for t in range(per):
             m = rng.randint(2, 6 if f.vtype in ('simple', 'approval') else 5)
@@ -256,6 +257,18 @@ def generate(rng, tier):
         k = rng.randint(1, 3)
         yield {'op': 'shape', 'family': fam, 'prof': [[i, str(k)] for i in range(m)], 'n': rng.randint(1, m - 1),
                '_tags': ['dist', 'all_equal']}
+    # directed: open lists with MORE candidates over the jump threshold than seats and list leaders that do not jump (the party
+    # list is in descending id order, the votes are independent of it): the cut among the jumpers / list-precedence branches
+    for f in F:
+        if f.name.startswith('openlist_'):
+            for t in range(40 if tier == 'quick' else 400):
+                m = rng.randint(4, 8)
+                vals = [rng.choice([0, 1, 2]) if rng.random() < 0.3 else rng.randint(20, 60) for _ in range(m)]
+                if sum(vals) == 0:
+                    vals[0] = 5
+                n = rng.randint(1, max(1, m // 2))
+                yield {'op': 'shape', 'family': f.name, 'prof': [[i, str(v)] for i, v in enumerate(vals)], 'n': n,
+                       '_tags': [f.kind, 'openlist_many_jumpers']}
     # directed: a full rotation (everybody tied everywhere) for all but one seat - the multi-seat tie branches of every ranked family
     for f in F:
         if f.vtype in ('ranked', 'ranked_noshared') and f.n_seats:
@@ -324,6 +337,10 @@ def oracle(case, obs):
             return []
         if f.declared:
             return [('undeclared_exception:' + obs['err'], f'{f.name}: {obs["err"]}')]
+        if obs['err'] == 'TypeError' and len(cands) >= n and f.name != 'aux_candidate_number':   # (that family needs numbered candidate objects)
+            # sentence 1 (every selection evaluator lists n entries when n candidates are present): a TypeError is never a
+            # refusal of the election but a slip in a call (e.g. a missing argument) - no evaluator answers that way on purpose
+            return [('no_result:TypeError', f'{f.name}: TypeError with {len(cands)} candidates for {n} seats')]
         return []          # observation only (counted in the evidence)
     if f.kind == 'dist':
         total = 0
